@@ -213,6 +213,22 @@ def scenario(ctx, lines, pend):
             cb += c02.first_order(total, 1e-6, rho, unit_rad)
         lines.append(line)
         pend.append((case, sim, real_chart, cb))
+        # the fit model on the tangent-plane coordinates: xy = reference, uv = image
+        if not (fitgeom in ('rscale', 'rshift') and n < 3):
+            from ..common import f2x, q2s, Fraction
+            tiny = Fraction(*float(np.finfo(np.double).tiny).as_integer_ratio())
+            wm = {0: 'n', 1: 'u', 2: 'x', 3: 'b'}[wmode]
+            # what fit2ref actually fits: the reference positions as the catalog table holds them
+            rxy = np.array(plane.world_to_tanp(np.asarray(refcat['RA']), np.asarray(refcat['DEC'])), dtype=float)
+            toks = []
+            for k in range(n):
+                toks += [f2x(rxy[0][k]), f2x(rxy[1][k]), f2x(a_k[0][k]), f2x(a_k[1][k])]
+            if wmode in (2, 3):
+                toks += [f2x(v) for v in wr]
+            if wmode in (1, 3):
+                toks += [f2x(v) for v in wi]
+            lines.append('iterfit F %s none 3 rmse 0 %s - %s %d %s' % (fitgeom, q2s(tiny), wm, n, ' '.join(toks)))
+            pend.append((case, 'fit', M, s, float(np.max(np.abs(a_k))) + 1.0))
 
 
 def run(ctx):
@@ -221,7 +237,24 @@ def run(ctx):
         scenario(ctx, lines, pend)
     if lines:
         outs = ctx.driver(lines)
-        for out, (case, sim, real_chart, cb) in zip(outs, pend):
+        for out, item in zip(outs, pend):
+            if item[1] == 'fit':
+                from ..common import x2f
+                case, _tag, M, sh, lever = item
+                t = out.split()
+                if t[0] != 'ok':
+                    ctx.disagree(case, {'op': 'iterfit', 'model': out[:100], 'impl': 'SUCCESS'})
+                    continue
+                mm = np.array([x2f(v) for v in t[1:5]]).reshape(2, 2)
+                ms = np.array([x2f(t[-2]), x2f(t[-1])])
+                dm = float(np.max(np.abs(mm - M)))
+                ds = float(np.max(np.abs(ms - sh)))
+                # two-source 'general'-like ill-conditioning does not occur here (non-degenerate sets)
+                if dm > 1e-8 * max(1.0, float(np.max(np.abs(M)))) or ds > 1e-8 * lever * max(1.0, float(np.max(np.abs(M)))):
+                    ctx.disagree(case, {'op': 'iterfit', 'what': 'reported matrix/shift differ from the fit model '
+                                        'on the tangent-plane coordinates', 'dmatrix': dm, 'dshift': ds})
+                continue
+            case, sim, real_chart, cb = item
             res = sim.parse(out)
             if res is None:
                 ctx.disagree(case, {'op': 'gcorr' if sim.jwst else 'fcorr', 'model': out[:100]})
